@@ -8,7 +8,9 @@ EXPL = ("R13.1 the slot guard's destructor sends the closed value exactly once o
         "R13.2 Slot::close / LazySlot::close reach no await/poll/blocking receive; the value is obtained by try_recv. R13.3 open() "
         "hands out the guard only through Option::take and stores the requested mode into it on the Some path; LazySlot::open returns "
         "None when a slot already exists, before creating a new one. R13.4 type structure: the wait mode carries a FlushGuard, which "
-        "carries the keep-alive Guard; SlotGuard is not Clone. Not decided: which thread drops what when.")
+        "carries the keep-alive Guard; SlotGuard is not Clone. R13.5 a value received from the guard's channel is "
+        "stored into the slot only on paths (followed across the await points of the future) that took the receiver out of the slot or "
+        "checked that no value is held: a delivered value is never replaced by the None of a spent channel. Not decided: which thread drops what when.")
 MQ = "metrique"
 SLOT = "metrique::slot::"
 
@@ -118,7 +120,112 @@ def run(ctx):
     for nm in ("SlotGuard", "FlushGuard", "ForceFlushGuard"):
         cl = [i for i in F.impls_of("core::clone::Clone") if i["crate"] == MQ and (i.get("self_head") or {}).get("adt", "").endswith("slot::" + nm)]
         ctx.check(not cl, "R13.4", SLOT + nm + "#not-Clone", "", "%s implements Clone" % nm)
+    # ------------------------------------------------------------------ R13.5 a received value is stored once per receiver
+    slot_adt = F.adt("slot::Slot")
+    data_f = [f["name"] for v in (slot_adt or {}).get("variants", []) for f in v["fields"] if f["ty"].startswith("core::option::Option<<") and "Closed" in f["ty"]]
+    rx_f = [f["name"] for v in (slot_adt or {}).get("variants", []) for f in v["fields"] if "slot::Waiting<" in f["ty"]]
+    ctx.check(len(data_f) == 1 and len(rx_f) == 1, "R13.5", SLOT + "Slot#fields", "", "cannot identify the received-value field / the receiver field of Slot (%s / %s)" % (data_f, rx_f),
+              "received value: .%s, receiver: .%s" % (data_f, rx_f))
+    n5 = 0
+    if len(data_f) == 1 and len(rx_f) == 1:
+        df, rf = data_f[0], rx_f[0]
+        for b in F.all_bodies(MQ):
+            if not b.def_.startswith(SLOT):
+                continue
+            stores = [i for i in b.live_blocks() for st in b.stmts(i) if st["k"] == "assign" and st["lhs"].get("p") and st["lhs"]["p"][-1][0] == "f"
+                      and st["lhs"]["p"][-1][2] == df and st["lhs"]["p"][-1][3].endswith("slot::Slot")]
+            if not stores:
+                continue
+            succ = logical_succ(b)
+            # accepted idioms that make the store happen at most once per receiver
+            consume = set()
+            for c in b.calls():
+                if (c.is_in("core::option", "Option::take") or c.is_("core::mem::take", "core::mem::replace")) and c.args:
+                    pl = single_place(b, c.args[0])
+                    if pl is not None and pl.get("p") and pl["p"][-1][0] == "f" and pl["p"][-1][2] == rf and pl["p"][-1][3].endswith("slot::Slot"):
+                        consume.add(c.bb)
+            none_edges = set()
+            for c in b.calls():
+                if c.is_in("core::option", "Option::is_none", "Option::is_some") and c.args:
+                    pl = single_place(b, c.args[0])
+                    if pl is not None and pl.get("p") and pl["p"][-1][0] == "f" and pl["p"][-1][2] == df:
+                        for sw, tg, oth in switch_on_call_result(b, c):
+                            t_true = tg.get(1, oth if 0 in tg else None)
+                            t_false = tg.get(0)
+                            tt = t_true if c.name == "is_none" else t_false
+                            if tt is not None:
+                                none_edges.add((sw, tt))
+            for sbb in stores:
+                n5 += 1
+                seen, stk = {0}, [0]
+                while stk:
+                    x = stk.pop()
+                    for y in succ(x):
+                        if y in seen or x in consume or (x, y) in none_edges:
+                            continue
+                        seen.add(y)
+                        stk.append(y)
+                ctx.check(sbb not in seen or 0 in consume, "R13.5", fnkey(b) + "#value-stored-once-per-receiver", loc(b, sbb),
+                          "the slot's received value (.%s) is overwritten from the channel on a path that neither took the receiver (.%s) out of the "
+                          "slot nor checked that no value is held yet: waiting a second time would replace a delivered value by the `None` of an "
+                          "already consumed channel, and the entry is emitted without it" % (df, rf),
+                          "every path to the store consumes the receiver (bb%s) or checks the value is absent" % sorted(consume))
+    ctx.floor("R13.5", "stores of a received slot value", n5, 1)
     # compile-fail witnesses (type-level part of the property), discharged by rustc's type checker
     from mq import witness as _w
     _w.report_cf(ctx, "W13", _w.run_witness(), "C13")
     return EXPL
+
+
+def single_place(b, op, hops=4):
+    """the place a reference operand was taken from (through copies / reborrows)"""
+    l = op_local(op)
+    while l is not None and hops > 0:
+        dd = [d for d in b.defs().get(l, []) if not b.is_cleanup(d[1])]
+        if len(dd) != 1 or dd[0][0] != "assign":
+            return None
+        rv = dd[0][3]["rv"]
+        if rv["k"] == "ref":
+            pl = rv["place"]
+            if pl.get("p") and pl["p"][-1][0] == "f":
+                return pl
+            if [e[0] for e in pl.get("p", [])] == ["deref"]:
+                l = pl["l"]
+            else:
+                return pl
+        elif rv["k"] == "use":
+            l = op_local(rv["op"])
+        else:
+            return None
+        hops -= 1
+    return None
+
+
+def logical_succ(b):
+    """successor function; for a coroutine body the resume dispatch is replaced by the edges yield(state k) -> resume block of k, so that
+    paths describe the life of one future instead of one poll"""
+    t0 = b.term(0)
+    is_co = t0["k"] == "switch" and t0.get("ty") == "u32" and any(st["k"] == "assign" and st["rv"]["k"] == "discr" for st in b.stmts(0)) and b.kind == "Closure"
+    if not is_co:
+        return b.succ
+    resume = {v: tb for v, tb in t0["targets"]}
+    yields = {}
+    for i in b.live_blocks():
+        if b.term(i)["k"] != "return":
+            continue
+        for st in b.stmts(i):
+            if st["k"] == "setdiscr":
+                try:
+                    k = int(st["variant"])
+                except ValueError:
+                    continue
+                if k >= 3 and k in resume:
+                    yields[i] = resume[k]
+
+    def succ(x):
+        if x == 0:
+            return [resume[0]] if 0 in resume else b.succ(0)
+        if x in yields:
+            return [yields[x]]
+        return b.succ(x)
+    return succ
